@@ -7,6 +7,14 @@ VERIF = Path(__file__).resolve().parent.parent
 
 # id -> (implemented, category, technique, level text, level note, design ref)
 P = {
+    'C13': (True, 'exploration',
+            'member chains vs reference evaluation of each config, object-identity monitor (shared iff same computation descriptor), run log + audit-hook reads across members',
+            'MultiChains over 2-5 configs of one generated pipeline (values changed at any depth, other contexts/parts/root namespaces, swapped twin mounts) are built in a real '
+            'process; every member is compared with the reference of its own config (names, keys, locations, parameters, input bindings, values); tasks are one object '
+            'iff their reference descriptors are equal; a value obtained through one member is served to others without run and without reading the store; '
+            'MultiChain.force marks exactly the closure in every member.',
+            'Distinct config names (MultiChain requirement); recompute multiplicity of shared tasks under MultiChain.force(recompute=True) not judged.',
+            'DESIGN.md §3 C13'),
     'C18': (True, 'exploration',
             'uid-tagged run-info records and log messages of every generated run checked against the latest completed run per location (offline check over recorded histories)',
             'Histories mixing successful runs, failing runs (before/after logging, failing generator bodies, failing upstream during argument evaluation), retries on the '
